@@ -408,7 +408,15 @@ class Spectrum:
 
         # interpolate on floating point wavelengths (unsigned integer grids wrap
         # around inside the interpolator)
-        interp = scipy.interpolate.interp1d(np.asarray(spectrum.wave, dtype=float),
+        spectrum_wave = np.asarray(spectrum.wave, dtype=float)
+
+        # a requested wavelength that agrees with the first or last sample to
+        # rounding is that sample (and not just outside of the data)
+        wave = np.asarray(wave, dtype=float)
+        for end in (spectrum_wave[0], spectrum_wave[-1]):
+            wave = np.where(np.abs(wave - end) <= _WAVE_RTOL*abs(end), end, wave)
+
+        interp = scipy.interpolate.interp1d(spectrum_wave,
                                             spectrum.value, kind=method,
                                             copy=False, bounds_error=False,
                                             fill_value=fill_value)
@@ -612,8 +620,8 @@ class Spectrum:
         if end is None:
             end = np.max(self.wave)
 
-        indices = np.intersect1d(np.where(self.wave >= start),
-                                 np.where(self.wave <= end))
+        indices = np.intersect1d(np.where(self.wave >= start - _WAVE_RTOL*abs(start)),
+                                 np.where(self.wave <= end + _WAVE_RTOL*abs(end)))
         wave = self.wave[indices]
         value = self.value[indices]
         if value.dtype.kind in 'biu':
@@ -875,6 +883,12 @@ def _sampling(wave, method='min'):
         raise ValueError('Unknown sampling method', method)
 
 
+# Wavelengths that agree to this relative tolerance are the same wavelength:
+# unit conversions (wave * 1e-9, wave * 1e3, ...) are exact only to an ulp or
+# two, and the end points of a range must not drop out of it because of that.
+_WAVE_RTOL = 1e-14
+
+
 def _intersect(subset, superset):
     """Return the superset indices where the subset overlaps based on its
     subset.min() and subset.max().
@@ -882,7 +896,9 @@ def _intersect(subset, superset):
     Both subset and superset are assumed to be monotonically increasing
 
     """
-    return np.where((superset >= subset.min()) & (superset <= subset.max()))
+    lo, hi = subset.min(), subset.max()
+    return np.where((superset >= lo - _WAVE_RTOL*abs(lo)) &
+                    (superset <= hi + _WAVE_RTOL*abs(hi)))
 
 
 def _interp_common(s1, s2, sampling, method, fill_value):
